@@ -328,13 +328,27 @@ def pin(index, rep, flow):
         [_rp(ro, ["consts_for_optimizer", "time_consts", "optimization_type", "min_human_food_consumption"])[3]]
     ok = fc2 is not None
     if ok:
-        got3 = _abn(fc2[1], of, ["consts_for_optimizer", "time_consts", "min_human_food_consumption"])
+        ofp = [a.arg for a in of.args.args][1:]
+        from .core import bind_args as _ba3
+        b3 = _ba3(fc2[1], of)
+        # the hand-off goes to the parameter that takes it; the two constant tables either go along (and then are run_optimizer's own) or the
+        # routine no longer takes them (it uses the ones the Optimizer was constructed with - checked next)
+        hand_p = "min_human_food_consumption" if "min_human_food_consumption" in ofp else (ofp[2] if len(ofp) == 3 else (ofp[0] if len(ofp) == 1 else None))
+        ok = hand_p is not None and hand_p in b3 and fc2[2].src(b3[hand_p]) == RH
+        for nm_, want_ in (("consts_for_optimizer", RC), ("time_consts", RT)):
+            if nm_ in ofp:
+                ok = ok and nm_ in b3 and fc2[2].src(b3[nm_]) == want_
+            elif len(ofp) == 3 and hand_p != "min_human_food_consumption":
+                i_ = 0 if nm_ == "consts_for_optimizer" else 1
+                ok = ok and ofp[i_] in b3 and fc2[2].src(b3[ofp[i_]]) == want_
         ctor_e = fc2[2].expr(fc2[1].func.value)
         got2 = _abn(ctor_e, oi, ["consts_for_optimizer", "time_consts"]) if isinstance(ctor_e, ast.Call) and dotted(ctor_e.func) == "Optimizer" else [None, None]
-        ok = None not in got3 and None not in got2 and [fc2[2].src(a) for a in got3] == [RC, RT, RH] and [norm_src(a) for a in got2] == [RC, RT]
+        ok = ok and None not in got2 and [norm_src(a) for a in got2] == [RC, RT]
     rep.check(ok, rule, "run_optimizer:passes-hand-off", "run_optimizer does not pass the hand-off to optimize_feed_to_animals", loc=loc(RUN, ro))
     st = [s for s in of.body if isinstance(s, ast.Assign) and norm_src(s.targets[0]) == "self.time_consts['min_human_food_consumption']"]
-    rep.check(len(st) == 1 and norm_src(st[0].value) == _rp(of, ["consts_for_optimizer", "time_consts", "min_human_food_consumption"])[2], rule, "optimizer:stores-hand-off",
+    ofp_ = [a.arg for a in of.args.args][1:]
+    hand_name = "min_human_food_consumption" if "min_human_food_consumption" in ofp_ else (ofp_[2] if len(ofp_) == 3 else (ofp_[0] if len(ofp_) == 1 else "?"))
+    rep.check(len(st) == 1 and norm_src(st[0].value) == hand_name, rule, "optimizer:stores-hand-off",
               "optimize_feed_to_animals does not store its hand-off argument where the pins read it", loc=loc(OPT, of))
     # the hand-off was computed from round 1's interpreted results
     c2r = index.func(PARAMS, "Parameters.compute_parameters_second_round")
